@@ -33,7 +33,7 @@ uint8_t vp_hash_output_is(uint32_t k, char *r) { ASSERT(k < vp_hn, "hash log ind
    Element i lives in array[begin + i]; begin is the constant LD_B of c20_qt_list.c. ---- */
 #ifdef HAVE_T_struct_QListData__Data
 #define SL(l, i) ((l)->array[LD_B + (i)])
-static int sl_cmp(QAD *a, QAD *b) { return view_cmp(a->f1, qs_chars(a), b->f1, qs_chars(b)); }
+static int sl_cmp(QAD *a, QAD *b) { return vpl_qcmp16(a, b); }
 /* removeDuplicates: keeps the first occurrence of every string, in order (Qt contract); returns the number removed */
 uint32_t _ZN9QtPrivate28QStringList_removeDuplicatesEP11QStringList(char *self) { struct ld *l = LD(self); uint32_t n = l->end - l->begin; if (n == 0) return 0;
   ASSERT(l->ref == 1 && l->begin == LD_B, "removeDuplicates: list must be detached (model)"); ASSERT(n <= LIST_CAP, "QList capacity of the model exceeded");
@@ -113,7 +113,64 @@ static void qs_store(uint16_t *out, uint32_t i, uint16_t c) {
 }
 #define C20_HINT16(d) ((d)->f3 == QS_OFF ? ((struct qs*)(d))->hint : (d)->f1)
 void _ZN13QConcatenableI7QStringE8appendToERKS0_RP5QChar(char *a, char *outp) { QAD *s = *(QAD**)a; uint16_t *out = *(uint16_t**)outp;
-  for (uint32_t i = 0; i < C20_HINT16(s); i++) { if (i >= s->f1) break; qs_store(out, i, ((uint16_t*)((char*)s + s->f3))[i]); } *(uint16_t**)outp = out + s->f1; }
+  uint32_t i = 0; for (; i < C20_HINT16(s) && i < QCAP; i++) { if (i >= s->f1) break; qs_store(out, i, ((uint16_t*)((char*)s + s->f3))[i]); }
+  ASSERT(!(i == QCAP && s->f1 > QCAP), "QStringBuilder operand longer than QCAP units"); *(uint16_t**)outp = out + s->f1; }
 void _ZN13QConcatenableIDsE8appendToEDsRP5QChar(uint16_t c, char *outp) { uint16_t *out = *(uint16_t**)outp; qs_store(out, 0, c); *(uint16_t**)outp = out + 1; }
 void _ZN13QConcatenableIA2_KDsE8appendToEPS0_RP5QChar(char *lit, char *outp) { uint16_t *out = *(uint16_t**)outp; qs_store(out, 0, ((uint16_t*)lit)[0]); *(uint16_t**)outp = out + 1; }
+
+/* ---- harness-side list construction.  QList<T>::append copies the new node as one 64-bit integer (`*(uint64_t*)slot = *(uint64_t*)&copy`
+   after SROA); a pointer that went through an integer-typed store is an "integer address" for cbmc and every later dereference of a
+   list element then drags the unbounded __CPROVER_memory array into the formula (measured: 13 GB for sorting 3 strings).  Input lists
+   are therefore built here, with pointer-typed stores. ---- */
+#ifdef HAVE_T_struct_QListData__Data
+void vp_c20_list_push(char *list, char *v) { struct ld *d = LD(list); if (d->ref != 1) { ASSERT(d->end == d->begin, "vp_c20_list_push: shared non-empty list"); d = ld_new(0); LD(list) = d; }
+  ASSERT(d->end < LIST_CAP + LD_B, "QList capacity of the model exceeded"); d->array[d->end] = v; d->end++; }
+void vp_c20_strlist_push(char *list, char *qstring) { vp_c20_list_push(list, (char*)qad_ref(*(QAD**)qstring)); }
+#endif
+
+/* ---- std::sort on QList ranges.  libstdc++'s std::__sort(first, last, comp) for a range of at most 16 elements is
+   __insertion_sort (bits/stl_algo.h: __introsort_loop does nothing below _S_threshold = 16, __final_insertion_sort then calls
+   __insertion_sort).  The translated header code is correct but not checkable with cbmc here: it keeps the insertion position in
+   an iterator, i.e. a pointer to a SLOT of the list block; after each symbolic comparison that pointer is an if-then-else of
+   several slots of the same block, cbmc's value sets then lose the offset, every slot read may alias the integer header words of
+   the block and each later dereference of an element drags the unbounded __CPROVER_memory array into the formula (measured:
+   sorting 3 strings = 380 s / 13.5 GB).  This model transcribes __insertion_sort / __unguarded_linear_insert on a local copy
+   of the slot words with CONCRETE positions (the element values become if-then-else terms instead of the positions), performs
+   the same comparator calls on the same operands in the same order - the comparator itself stays the real code
+   (identityLessThan) resp. the QString operator< model - and writes the result back.  n <= LIST_CAP (<= 16) asserted. ---- */
+#ifdef HAVE_T_struct_QListData__Data
+uint8_t F__ZL16identityLessThanRKN16QXmppDiscoveryIq8IdentityES2_(char*, char*);
+static uint8_t c20_less(int kind, char *a, char *b) { if (kind == 0) return vpl_qcmp16((QAD*)a, (QAD*)b) < 0;
+#ifdef C20_HAVE_IDLESS
+  return F__ZL16identityLessThanRKN16QXmppDiscoveryIq8IdentityES2_(a, b);
+#else
+  ASSERT(0, "identity comparator not linked"); return 0;
+#endif
+}
+static void c20_insertion_sort(char *firstp, char *lastp, int kind) { char **slots = *(char***)firstp; char **end = *(char***)lastp;
+  ASSERT(VP_SAME_OBJ((char*)slots, (char*)end), "std::sort range across blocks"); uint32_t n = (uint32_t)(VP_PDIFF((char*)end, (char*)slots) / 8);
+  ASSERT(n <= LIST_CAP, "std::sort model: more than LIST_CAP elements"); if (n < 2) return;
+  char *e[LIST_CAP]; for (uint32_t k = 0; k < LIST_CAP; k++) e[k] = k < n ? slots[k] : (char*)0;
+  for (uint32_t i = 1; i < LIST_CAP; i++) { if (i >= n) break; char *val = e[i];
+    if (c20_less(kind, val, e[0])) { /* __comp(__i, __first): move_backward(first, i, i + 1); *first = val */
+      for (uint32_t k = LIST_CAP - 1; k > 0; k--) { if (k <= i) e[k] = e[k - 1]; } e[0] = val; }
+    else { /* __unguarded_linear_insert(i): while (comp(val, *next)) { *last = *next; last = next; --next; } *last = val;  the sentinel e[0] stops it */
+      uint8_t done = 0;
+      for (uint32_t k = LIST_CAP - 1; k > 0; k--) { if (k > i || done) continue;
+        if (k > 1 && c20_less(kind, val, e[k - 1])) e[k] = e[k - 1]; else { e[k] = val; done = 1; } } } }
+  for (uint32_t k = 0; k < LIST_CAP; k++) { if (k < n) slots[k] = e[k]; } }
+void _ZSt6__sortIN5QListI7QStringE8iteratorEN9__gnu_cxx5__ops15_Iter_less_iterEEvT_S7_T0_(char *first, char *last) { c20_insertion_sort(first, last, 0); }
+void _ZSt6__sortIN5QListIN16QXmppDiscoveryIq8IdentityEE8iteratorEN9__gnu_cxx5__ops15_Iter_comp_iterIPFbRKS2_S9_EEEEvT_SD_T0_(char *first, char *last, char *comp) {
+#ifdef C20_HAVE_IDLESS
+  ASSERT(comp == (char*)&F__ZL16identityLessThanRKN16QXmppDiscoveryIq8IdentityES2_, "std::sort model: unexpected comparator");
+#endif
+  c20_insertion_sort(first, last, 1); }
+#endif
+
+/* ---- QList<T>::dealloc (runs the element destructors and frees the block when the last reference goes away): skipped.  Blocks are
+   never recycled by the models, no leak / use-after-free claim is made by C20, and walking a list whose end index is symbolic
+   (after removeDuplicates) with a slot pointer is exactly the access pattern cbmc cannot resolve (see std::sort above). ---- */
+void _ZN5QListI7QStringE7deallocEPN9QListData4DataE(char *self, char *d) { }
+void _ZN5QListIN16QXmppDiscoveryIq8IdentityEE7deallocEPN9QListData4DataE(char *self, char *d) { }
+void _ZN5QListIN13QXmppDataForm5FieldEE7deallocEPN9QListData4DataE(char *self, char *d) { }
 #endif
